@@ -500,23 +500,36 @@ pub fn miri_box() -> Acc {
     let mut acc = Acc::default();
     // geometry: luma <= 3x3, full product restricted to padding {0,1}, plus every single deviation
     let mut idx = 0u64;
-    for s in small_box(3) {
-        if s.p[0].xpad == 17 {
+    // Under the interpreter every frame costs milliseconds: run the frames the reference predicate
+    // accepts (they reach the unsafe indexing) and every 97th rejected one (constructor only).
+    let wanted = |s: &FSpec, k: usize| -> bool {
+        if !s.buildable() {
+            return false;
+        }
+        let ok = if s.wide { expect(s, &build::<u16>(s)).accept } else { expect(s, &build::<u8>(s)).accept };
+        ok || k % 97 == 0
+    };
+    for (k, s) in small_box(3).into_iter().enumerate() {
+        if s.p[0].xpad == 17 || !wanted(&s, k) {
             continue;
         }
-        // only frames the constructor accepts do any work beyond Yuv::new
         decode_dyn(&mut acc, idx, &s);
         idx += 1;
     }
-    for b in bases(false).into_iter().filter(|b| b.p[0].w <= 4 && b.p[0].h <= 4 && b.p[0].xpad <= 1) {
+    let mut k = 0;
+    for b in bases(false).into_iter().filter(|b| b.p[0].w <= 4 && b.p[0].h <= 4 && b.p[0].xpad <= 1 && b.depth != 16) {
         for d in deviations(&b) {
             let mut s = b;
             apply(&mut s, d);
+            k += 1;
+            if matches!(d, Dev::Pad(_, 17, 17)) || !wanted(&s, k) {
+                continue;
+            }
             decode_dyn(&mut acc, idx, &s);
             idx += 1;
         }
     }
-    for e in enc_cases(Tier::Quick).into_iter().filter(|e| e.w <= 4 && e.h <= 4) {
+    for e in enc_cases(Tier::Quick).into_iter().filter(|e| e.w <= 4 && e.h <= 4 && e.src != 1) {
         encode_case(&mut acc, idx, &e);
         idx += 1;
     }
